@@ -30,6 +30,83 @@ RETRIABLE = {
     "FindCoordinator": [15],
 }
 FATAL = {"JoinGroup": [23, 30], "SyncGroup": [30], "Heartbeat": [30]}
+MIN_HB = int(WATCH * 1000 / HEARTBEAT) // 2     # successful heartbeats a settled member must show in the watch window
+SPIN_LIMIT = 20000       # loop iterations at one virtual instant: nothing legitimate comes near
+
+
+class ClientLivelock(Exception):
+    """tasks of the code under test keep the loop busy without virtual time passing"""
+
+
+def watch_spin(loop, repo):
+    """make a busy loop of client tasks an observation (the simulator's own guard would turn it into
+    a SimBug after 2 000 000 iterations)"""
+    orig = loop._run_once
+    st = {"vt": None, "n": 0, "seen": {}}
+
+    def run_once():
+        if loop._vt == st["vt"]:
+            st["n"] += 1
+        else:
+            st["vt"], st["n"], st["seen"] = loop._vt, 0, {}
+        if st["n"] > SPIN_LIMIT - 200:
+            for h in list(loop._ready):
+                t = getattr(h._callback, "__self__", None)
+                if isinstance(t, asyncio.Task):
+                    co = t.get_coro()
+                    code = getattr(co, "cr_code", None)
+                    key = (getattr(co, "__qualname__", "?"), bool(code and str(repo) in code.co_filename))
+                    st["seen"][key] = st["seen"].get(key, 0) + 1
+        if st["n"] >= SPIN_LIMIT:
+            seen, st["n"], st["seen"] = st["seen"], 0, {}
+            client = sorted(k[0] for k in seen if k[1])
+            if not client:
+                raise HarnessError(f"livelock of the harness / simulator at vt {loop._vt}: {sorted(seen)}")
+            raise ClientLivelock(f"vt={loop._vt:.3f}s spinning: {client}")
+        orig()
+    loop._run_once = run_once
+
+
+def family_scenarios(thorough=False):
+    """deterministic families aimed at mechanisms the random stream hits too rarely"""
+    out = []
+
+    def base(idx, **kw):
+        sc = {"idx": idx, "seed": 1000 + idx, "cfg": ["roundrobin", "range"], "permute": False, "members": 1,
+              "join_v": 5, "parts": 3, "auto_commit": True, "jitter": 0.0, "steps": [], "faults": [],
+              "fatal": False, "mode": "family", "horizon": 4.0}
+        sc.update(kw)
+        return sc
+    i = 8000
+    # (1) the heartbeat task ends by itself (UNKNOWN_MEMBER_ID / ILLEGAL_GENERATION, coordinator moved without
+    #     state) and must be running again after the rejoin
+    for code in (25, 22):
+        for n in (1, 2):
+            for ac in (True, False):
+                out.append(base(i, members=n, auto_commit=ac, join_v=5 if ac else 2, mode="family-hb-reset",
+                                faults=[{"kind": "error", "api": "Heartbeat", "nth": 2, "client": "m0", "code": code}]))
+                i += 1
+    for ac in (True, False):
+        out.append(base(i, members=2, auto_commit=ac, mode="family-hb-reset", steps=[(1.5, "move_lose", None)]))
+        i += 1
+    # (2) a coordinator error on the SyncGroup of a member that already has an assignment (leader / follower)
+    for code in (15, 16):
+        for ac in (True, False):
+            out.append(base(i, members=1, auto_commit=ac, mode="family-sync-error", steps=[(1.0, "start", 1)],
+                            faults=[{"kind": "error", "api": "SyncGroup", "nth": 1, "client": "m0", "code": code}]))
+            i += 1
+            out.append(base(i, members=1, auto_commit=ac, mode="family-sync-error", horizon=5.0,
+                            steps=[(1.0, "start", 1), (2.2, "start", 2)],
+                            faults=[{"kind": "error", "api": "SyncGroup", "nth": 1, "client": "m1", "code": code}]))
+            i += 1
+    # (3) the partition count of a subscribed topic grows while the leader's SyncGroup is in flight
+    ats = (0.02, 0.1, 0.3, 0.5) if not thorough else tuple(round(0.01 + 0.05 * j, 3) for j in range(14))
+    for at in ats:
+        for n0 in ((1,) if not thorough else (1, 2)):
+            out.append(base(i, members=n0, mode="family-md-race", horizon=5.0, steps=[(1.0, "start", n0)],
+                            mdrace={"client": "m0", "nth": 1, "delay": 0.8, "at": at}))
+            i += 1
+    return out
 
 
 def gen_scenario(rng, idx, thorough=False):
@@ -56,8 +133,24 @@ def gen_scenario(rng, idx, thorough=False):
     t = 0.0
     next_id = n0
     alive = list(range(n0))
-    mode = rng.choice(["clean", "faults", "faults", "churn", "churn", "failover", "mixed"])
+    mode = rng.choice(["clean", "faults", "faults", "churn", "churn", "failover", "mixed", "hbreset", "syncerr"])
     sc["mode"] = mode
+    if mode == "hbreset":
+        # the heartbeat task ends by itself: reply UNKNOWN_MEMBER_ID / ILLEGAL_GENERATION, or the group state is lost
+        for _ in range(rng.randrange(1, 3)):
+            if rng.random() < 0.75:
+                sc["faults"].append({"kind": "error", "api": "Heartbeat", "nth": rng.randrange(0, 8),
+                                     "client": f"m{rng.randrange(n0)}", "code": rng.choice([22, 25])})
+            else:
+                sc["steps"].append((rng.choice([0.8, 1.5, 2.5]), "move_lose", None))
+        sc["steps"].sort()
+    if mode == "syncerr":
+        # a rebalance of members that already hold an assignment, its SyncGroup answered with a coordinator error
+        sc["steps"].append((rng.choice([0.8, 1.2, 2.0]), "start", n0))
+        next_id = n0 + 1
+        for _ in range(rng.randrange(1, 3)):
+            sc["faults"].append({"kind": "error", "api": "SyncGroup", "nth": rng.randrange(1, 3),
+                                 "client": f"m{rng.randrange(n0)}", "code": rng.choice([15, 16, 15, 16, 22, 27])})
     if mode in ("faults", "mixed"):
         apis = ["JoinGroup", "SyncGroup", "Heartbeat", "OffsetCommit", "FindCoordinator", "OffsetFetch"]
         for _ in range(rng.randrange(1, 7)):
@@ -90,7 +183,7 @@ def gen_scenario(rng, idx, thorough=False):
                 sc["steps"].append((t, "subscribe", rng.choice(alive)))
             else:
                 sc["steps"].append((t, "add_partitions", None))
-    sc["horizon"] = max(horizon, t + 0.5)
+    sc["horizon"] = max(horizon, t + 0.5, max([x[0] for x in sc["steps"]], default=0) + 1.0)
     return sc
 
 
@@ -156,11 +249,13 @@ class Member:
 
 async def scenario_main(env, cluster, sc, out):
     loop = asyncio.get_running_loop()
-    members = {}
+    watch_spin(loop, env.aiokafka.__file__.rsplit("/aiokafka/", 1)[0])
+    members = out["_members"] = {}
     log = out["log"]
 
     def start(i):
         m = members[i] = Member(env, cluster, sc, i)
+        out.setdefault("cfgs", {})[m.cid] = m.cfg
         ctx = __import__("contextvars").copy_context()
         m.task = ctx.run(lambda: loop.create_task(m.run()))
 
@@ -349,11 +444,33 @@ def run_scenario(env, sc):
         cluster.faults.add(S.Fault(f["kind"], **kw))
     out = {"log": None}
     out["log"] = env.install_probe(lambda: int(cluster.now() * 1000 + 0.5))
+    race = sc.get("mdrace")
+    if race:
+        # the SyncGroup of `client` is answered `delay` s late; `at` s into that window the topic gets one more
+        # partition and the member refreshes its metadata (as its periodic refresh would at that moment)
+        def fire(cl, rq):
+            rq.delay = race["delay"]
+
+            def grow():
+                sc["parts"] += 1
+                cl.add_partitions("t", sc["parts"])
+                for m in out.get("_members", {}).values():
+                    if m.state in ("running", "starting"):
+                        env.mark(m.cid, "M")
+                m = next((m for m in out.get("_members", {}).values() if m.cid == race["client"]), None)
+                if m is not None and m.consumer is not None:
+                    m.consumer._client.force_metadata_update()
+            cl._timer(race["at"], grow)
+        cluster.faults.add(S.Fault("call", api="SyncGroup", client=race["client"], nth=race["nth"], fn=fire))
     try:
         S.run(scenario_main(env, cluster, sc, out), cluster, max_vt=sc["horizon"] + QUIET_BOUND + WATCH + 200, grace=30)
         out["res"] = "ok"
     except S.SimTimeout as e:
         out["res"] = "timeout:" + ";".join((e.where or ["?"])[-2:])
+    except ClientLivelock as e:
+        out["res"] = "livelock"
+        out["livelock"] = str(e)
+    out.pop("_members", None)
     wire = []
     for e in cluster.trace:
         if e["ev"] == "request" and e["api"] == "JoinGroup":
@@ -367,13 +484,17 @@ def conv_line(out):
     o = out["obs"]
     lst = lambda xs: ",".join(map(str, xs)) if xs else "-"
     return (f"c06 conv {o['latest']} {lst(o['gens'])} {o['missing'] + len(o['extra_members'])} {o['dup']} {o['joins']} "
-            f"{o['gen_after']} {lst(o['hbs'])}")
+            f"{o['gen_after']} {lst(o['hbs'])} {MIN_HB}")
 
 
 def judge(sc, out, verdict):
     """convergence clauses on the observation of one scenario -> list of (signature, text);
     `verdict` is the Lean statement `observedConverged` evaluated on out['obs']"""
     bad = []
+    if out["res"] == "livelock":
+        bad.append(("c06:livelock", f"tasks of the client keep the event loop busy without time passing (a wait on "
+                                    f"something that is already done): {out.get('livelock')}"))
+        return bad
     if out["res"] != "ok":
         bad.append(("c06:scenario-hang", f"scenario did not finish: {out['res']}"))
         return bad
@@ -399,9 +520,10 @@ def judge(sc, out, verdict):
     if out.get("cover_missing") or out.get("cover_dup") or out["obs"]["extra_members"]:
         bad.append(("c06:coverage", f"assignments of the stable group: missing {out.get('cover_missing')}, "
                                     f"owned twice {out.get('cover_dup')}, members that are not alive {out['obs']['extra_members']}"))
-    silent = [m for m, n in (out.get("heartbeats_in_watch") or {}).items() if n == 0]
+    silent = {m: n for m, n in (out.get("heartbeats_in_watch") or {}).items() if n < MIN_HB}
     if silent:
-        bad.append(("c06:not-heartbeating", f"members {silent} sent no successful heartbeat for {WATCH:.0f} s"))
+        bad.append(("c06:not-heartbeating", f"successful heartbeats during the {WATCH:.0f} s watch window {silent}: fewer than "
+                                            f"{MIN_HB} (heartbeat interval {HEARTBEAT} ms)"))
     if not bad:
         bad.append(("c06:not-converged", f"observedConverged is false on {out['obs']}"))
     return bad
@@ -433,7 +555,8 @@ def run(ctx):
             sc["steps"] = [tuple(x) for x in sc["steps"]]
     else:
         n = 1500 if ctx.thorough else 150
-        scenarios = corpus_cases("C06", "scenario") + [gen_scenario(rng, i, ctx.thorough) for i in range(n)]
+        scenarios = (corpus_cases("C06", "scenario") + family_scenarios(ctx.thorough)
+                     + [gen_scenario(rng, i, ctx.thorough) for i in range(n)])
         for sc in scenarios:
             sc["steps"] = [tuple(x) for x in sc["steps"]]
     hist = collections.Counter()
@@ -474,7 +597,7 @@ def run(ctx):
         nontrivial = sc["members"] >= 2 or bool(sc["faults"]) or bool(sc["steps"])
         ctx.count(("sc", sc["seed"], tuple(sc["cfg"]), sc["members"], sc["join_v"], str(sc["steps"]), str(sc["faults"])),
                   nontrivial=nontrivial)
-    clines = [conv_line(o) if "obs" in o else "c06 conv 1 0 0 0 0 1 -" for _, _, o in judged]
+    clines = [conv_line(o) if "obs" in o else f"c06 conv 1 0 0 0 0 1 - {MIN_HB}" for _, _, o in judged]
     cres = ctx.driver("akdriver", clines) if clines else []
     for (sc, sc0, o), line, verdict in zip(judged, clines, cres):
         if verdict not in ("true", "false"):
